@@ -87,9 +87,12 @@ pub enum Placement {
     /// imported by an OID written with name-only components ({ iso standard 4242 }) while a module of another name,
     /// whose OID differs in the name-only components only ({ itu-t recommendation 4242 }), defines other values
     SiblingByNameFormOidWithDecoy,
+    /// imported from `SibModule` while a module `Sib` (the same name without the suffix that the front end strips
+    /// from module names) defines the same names with other values
+    SiblingWithModuleSuffixAndDecoyWithout,
 }
 
-pub const PLACEMENTS: [Placement; 9] = [
+pub const PLACEMENTS: [Placement; 10] = [
     Placement::LocalBefore,
     Placement::LocalAfter,
     Placement::SiblingByName,
@@ -99,6 +102,7 @@ pub const PLACEMENTS: [Placement; 9] = [
     Placement::SiblingByNameWithDifferentlySpelledOid,
     Placement::SiblingByNameWithUnrelatedModule,
     Placement::SiblingByNameFormOidWithDecoy,
+    Placement::SiblingWithModuleSuffixAndDecoyWithout,
 ];
 
 fn fill(t: &str, vals: &[String]) -> String {
@@ -180,6 +184,11 @@ fn build_plain(base: &Base, replaced: &[usize], p: Placement) -> Vec<(String, St
             ("Main".into(), format!("Main {header}\nIMPORTS {} FROM Sib {{ iso standard 4242 }};\n{body}\nEND\n", names.join(", "))),
             ("Sib".into(), format!("Sib {{ iso standard 4242 }} {header}\n{}END\n", defs(false))),
             ("Legacy".into(), format!("Legacy {{ itu-t recommendation 4242 }} {header}\n{}END\n", defs(true))),
+        ],
+        Placement::SiblingWithModuleSuffixAndDecoyWithout => vec![
+            ("Main".into(), format!("Main {header}\nIMPORTS {} FROM SibModule;\n{body}\nEND\n", names.join(", "))),
+            ("SibModule".into(), format!("SibModule {header}\n{}END\n", defs(false))),
+            ("Sib".into(), format!("Sib {header}\n{}END\n", defs(true))),
         ],
         Placement::LocalShadowsImported => vec![
             // the local definition is the one in scope; the imported module carries a different value
@@ -385,7 +394,7 @@ pub fn run(args: &Args) -> ! {
     for (k, (n, f)) in agg {
         report.merge(k, n, f);
     }
-    let resolutions: u64 = work.iter().map(|w| match w.placement { Placement::SiblingByOidWithDecoy | Placement::SiblingByNameWithUnrelatedModule | Placement::SiblingByNameFormOidWithDecoy => 6, Placement::LocalBefore | Placement::LocalAfter => 1, _ => 2 }).sum();
+    let resolutions: u64 = work.iter().map(|w| match w.placement { Placement::SiblingByOidWithDecoy | Placement::SiblingByNameWithUnrelatedModule | Placement::SiblingByNameFormOidWithDecoy | Placement::SiblingWithModuleSuffixAndDecoyWithout => 6, Placement::LocalBefore | Placement::LocalAfter => 1, _ => 2 }).sum();
     let mut cov = Map::new();
     cov.insert("exhaustive".into(), json!(true));
     cov.insert("evaluations".into(), json!(resolutions + neg_evals));
